@@ -64,6 +64,8 @@ pub struct Ep {
     pub queries: Vec<QuerySeen>,
     /// Whether accepted puts are stored and later served.
     pub store_puts: bool,
+    /// Entries appended verbatim to every node list this endpoint returns.
+    pub extra_listed: Vec<(Id20, SocketAddrV4)>,
 }
 
 impl Ep {
@@ -88,6 +90,7 @@ impl Ep {
             puts: vec![],
             queries: vec![],
             store_puts: true,
+            extra_listed: vec![],
         }
     }
 }
@@ -136,7 +139,9 @@ impl EpNet {
             .collect();
         v.sort();
         v.truncate(me.k);
-        v.into_iter().map(|(_, id, a)| (id, a)).collect()
+        let mut out: Vec<(Id20, SocketAddrV4)> = v.into_iter().map(|(_, id, a)| (id, a)).collect();
+        out.extend(me.extra_listed.iter().cloned());
+        out
     }
 
     /// The honest reply bytes of endpoint `i` to query `q` from `from` (None = stays silent).
